@@ -202,8 +202,8 @@ func lostDirectives(before, after map[string]int) string {
 // ---- display of very long texts ---------------------------------------------------------
 
 // elide shortens s for messages: every periodic run (period <= 32 bytes) longer than
-// 96 bytes is written as three periods + "…(<n> bytes of <period>)…". Replay files keep
-// the full text.
+// 96 bytes is written as three periods + "…(<n> bytes of <period>)…"; what is then still
+// longer than 6 KiB is cut to its first 3 KiB and last 1 KiB. Replay files keep the full text.
 func elide(s string) string {
 	if len(s) <= 512 {
 		return s
@@ -238,6 +238,10 @@ func elide(s string) string {
 		}
 		sb.WriteByte(s[i])
 		i++
+	}
+	// a long text without periodic runs (thousands of numbered routes): head and tail only
+	if out := sb.String(); len(out) > 6144 {
+		return out[:3072] + fmt.Sprintf("\n…(%d bytes left out)…\n", len(out)-4096) + out[len(out)-1024:]
 	}
 	return sb.String()
 }
